@@ -70,6 +70,9 @@ func replayStreamFromChan(clck clock.Clock, points <-chan edge.PointMessage, col
 	return nil
 }
 
+// Maximum length of a line in a stream recording.
+const maxRecordedLineSize = 64 * 1024 * 1024
+
 func readPointsFromIO(data io.ReadCloser, points chan<- edge.PointMessage, precision string) error {
 	defer data.Close()
 	defer close(points)
@@ -77,6 +80,8 @@ func readPointsFromIO(data io.ReadCloser, points chan<- edge.PointMessage, preci
 	now := time.Time{}
 
 	in := bufio.NewScanner(data)
+	// A recorded point is one line; string fields make it longer than the scanner's default 64kB limit.
+	in.Buffer(nil, maxRecordedLineSize)
 	for in.Scan() {
 		db := in.Text()
 		if !in.Scan() {
